@@ -265,6 +265,7 @@ impl RunCfg {
             nonfinite: kj.get("nonfinite")?.as_bool()?,
             empty_bias: ku("empty_bias")? as u8,
             zst_huge: kj.get("zst_huge").and_then(J::as_bool).unwrap_or(false),
+            fixed_len: kj.get("fixed_len").and_then(J::as_u64).unwrap_or(0) as usize,
         };
         Some(RunCfg {
             prop: u("prop")? as u8,
